@@ -174,6 +174,8 @@ def tk_class(tok):
     typ, val = tok[0], tok[1]
     if typ == 'EOF':
         return 'E'
+    if typ == 'IDENT':         # also one whose value is a delimiter ('\\7b '): a name
+        return 'i'
     if val in ('{', '}', '[', ']', '(', ')', ';', ':', '!', ','):
         return val
     if typ == 'FUNCTION':
